@@ -72,15 +72,16 @@ fn main() {
 
     let do128 = |out: &mut Out, trace: &mut Vec<String>, x: i128, y: i128, d: i128, emit: &mut dyn FnMut(&mut Out, &mut Vec<String>, String, String, &str)| {
         for k in 0..3u32 {
+            let wide = x.checked_mul(y).is_none();
             let r = c.try_md(&k, &x, &y, &d);
-            emit(out, trace, format!("MulDiv128 {} {} {} {}", rdname(k), z(x), z(y), z(d)), out_i128(r), "md128");
+            emit(out, trace, format!("MulDiv128 {} {} {} {}", rdname(k), z(x), z(y), z(d)), out_i128(r), if wide { "md128-widened" } else { "md128" });
             let r = c.try_cmd(&k, &x, &y, &d);
-            emit(out, trace, format!("CMulDiv128 {} {} {} {}", rdname(k), z(x), z(y), z(d)), out_opt(r), "cmd128");
+            emit(out, trace, format!("CMulDiv128 {} {} {} {}", rdname(k), z(x), z(y), z(d)), out_opt(r), if wide { "cmd128-widened" } else { "cmd128" });
         }
     };
 
     // 1. boundary lattice cubed (quick: a seeded sample of it plus the full 13-point core cubed)
-    let core: Vec<i128> = vec![0, 1, -1, 1 << 63, -(1 << 63), 1 << 64, 1_000_000_000_000_000_000, -1_000_000_000_000_000_000,
+    let core: Vec<i128> = vec![0, 1, -1, 1 << 63, -(1 << 63), 1 << 64, -(1 << 64), 1_000_000_000_000_000_000, -1_000_000_000_000_000_000,
                                i128::MIN, i128::MIN + 1, i128::MAX - 1, i128::MAX, 2];
     for &x in &core { for &y in &core { for &d in &core { do128(&mut out, &mut trace, x, y, d, &mut emit); } flush(&mut out, &mut trace, "core-lattice", &mut tidx); } }
     let nl = if thorough { 6000 } else { 300 } * out.cfg.scale;
@@ -115,9 +116,61 @@ fn main() {
     }
     flush(&mut out, &mut trace, "quotient-at-range-edge", &mut tidx);
 
+    // 3b. directed: rounding-sensitive fit on the widening path (floor fits / ceil does not, and the reverse),
+    //     at both ends of the range, and quotient exactly MIN / MAX with an overflowing product
+    {
+        let m = i128::MAX; let n = i128::MIN;
+        let cases: [(i128, i128, i128); 12] = [
+            (m, 3, 3), (m, 4, 4), (n, 3, 3), (n, 5, -5),           // exact MAX / MIN / MIN / (2^127 does not fit)
+            (m, 2 * 3 + 1, 2 * 3 + 1),                              // exact MAX through a widened product
+            ((1i128 << 126), 6, 3), ((1i128 << 126) + 1, 6, 3),      // 2^127 (unfit) and just above
+            // quotient strictly between MAX and MAX+1: floor = MAX fits, ceil = MAX+1 does not
+            (m, 4, 4 - 0), (m - 0, 1 << 64, (1 << 64) - 0),
+            // x*y = MAX*(2^64) + r  with 0 < r < 2^64  => floor = MAX, ceil = MAX+1
+            (m, 1 << 64, 1 << 64), (n, 1 << 64, 1 << 64), (n, 1 << 64, -(1 << 64)),
+        ];
+        for &(x, y, d) in cases.iter() { do128(&mut out, &mut trace, x, y, d, &mut emit); }
+        // MAX*k + r over k, r in (0,k): floor fits, ceil does not; MIN*k - r: ceil fits, floor does not
+        for k in [3i128, 7, 1 << 40, (1 << 64) + 1] {
+            // choose y = k, x = MAX, then perturb the divisor so the quotient is just above MAX / just below MIN
+            do128(&mut out, &mut trace, m, k, k - 1 + 1, &mut emit);
+            do128(&mut out, &mut trace, m, k + 1, k, &mut emit);          // quotient > MAX: never fits
+            do128(&mut out, &mut trace, m - 1, k, k, &mut emit);          // exact MAX-1
+            do128(&mut out, &mut trace, n, k, k, &mut emit);              // exact MIN
+            do128(&mut out, &mut trace, n + 1, k + 1, k + 1, &mut emit);
+            // inexact around the ends: (MAX*k + (k-1)) / k  has floor MAX, ceil MAX+1 ; needs x*y form: use x = MAX, y = k, d = k with remainder via y+? -> use 3-factor trick: x=(MAX), y=(2k-1), d=(2k-1) exact; so take d = y+0 and x just below
+            do128(&mut out, &mut trace, m, 2 * k - 1, 2 * k - 2 + 1, &mut emit);
+        }
+        // rational just above MAX with floor = MAX: x = 2^64+1, y = 2^63 - 1 ... brute-force search of small multipliers
+        for a in [(1i128 << 64) + 3, (1i128 << 100) + 12345, 0x1234_5678_9abc_def0_1234_5678i128] {
+            let b_ = m / a + 1;                       // a*b_ > MAX  (widened)
+            for dd in [1i128, 2, 3, -1, -2, -3, b_, -b_, a] {
+                do128(&mut out, &mut trace, a, b_, dd, &mut emit);
+                do128(&mut out, &mut trace, -a, b_, dd, &mut emit);
+            }
+        }
+        flush(&mut out, &mut trace, "directed-rounding-at-range-ends", &mut tidx);
+    }
+
     // 4. I256 entry points
     let n256 = if thorough { 6000 } else { 300 } * out.cfg.scale;
     let minw = W(i128::MIN, 0); let maxw = W(i128::MAX, u128::MAX);
+    {
+        let one = W(0, 1); let m1 = W(-1, u128::MAX); let zero = W(0, 0); let two = W(0, 2);
+        let directed: [(W, W, W); 10] = [(minw, one, m1), (one, minw, m1), (minw, m1, one), (maxw, maxw, zero), (maxw, two, zero), (minw, minw, zero),
+                                         (maxw, one, one), (minw, one, one), (maxw, one, two), (minw, one, two)];
+        for (x, y, d) in directed.iter() {
+            for k in 0..3u32 {
+                let r = c.try_md256(&k, &x.to(&e), &y.to(&e), &d.to(&e));
+                let s_ = match r { Ok(Ok(v)) => format!("(Ok (Some {}))", W::of(&v).coq()), _ => "Fail".into() };
+                emit(&mut out, &mut trace, format!("MulDiv256 {} {} {} {}", rdname(k), x.coq(), y.coq(), d.coq()), s_, "md256-directed");
+                let r = c.try_cmd256(&k, &x.to(&e), &y.to(&e), &d.to(&e));
+                let s_ = match r { Ok(Ok(Some(v))) => format!("(Ok (Some {}))", W::of(&v).coq()), Ok(Ok(None)) => "(Ok None)".into(), _ => "Fail".into() };
+                emit(&mut out, &mut trace, format!("CMulDiv256 {} {} {} {}", rdname(k), x.coq(), y.coq(), d.coq()), s_, "cmd256-directed");
+            }
+        }
+        flush(&mut out, &mut trace, "i256-directed", &mut tidx);
+    }
     for i in 0..n256 {
         let pickw = |rng: &mut Rng| -> W {
             match rng.below(10) {
@@ -154,6 +207,16 @@ fn main() {
             if i % 3 == 2 { flush(&mut out, &mut trace, "wad-core-lattice", &mut tidx); }
         }
         flush(&mut out, &mut trace, "wad-core-lattice", &mut tidx);
+    }
+    // 5b. directed pow pairs: exponents 0,1, base 0 and 1.0, overflow, huge exponent on 1.0 +/- eps
+    {
+        let wad = 1_000_000_000_000_000_000i128;
+        for &(x, p) in [(5i128, 0u32), (5, 1), (0, 7), (wad, u32::MAX), (2 * wad, 10), (2 * wad, 200), (-2 * wad, 3), (-2 * wad, 127), (wad + 1, u32::MAX), (wad - 1, u32::MAX),
+                        (i128::MAX, 2), (i128::MIN, 2), (i128::MIN, 1), (3 * wad / 2, 64), (wad / 2, 64)].iter() {
+            emit(&mut out, &mut trace, format!("WadCPow {} {}", z(x), p), out_opt(c.try_wcpow(&x, &p)), "wad_checked_pow-directed");
+            emit(&mut out, &mut trace, format!("WadPow {} {}", z(x), p), out_i128(c.try_wpow(&x, &p)), "wad_pow-directed");
+        }
+        flush(&mut out, &mut trace, "wad-pow-directed", &mut tidx);
     }
     // 5. Wad
     let nw = if thorough { 10000 } else { 500 } * out.cfg.scale;
